@@ -511,7 +511,8 @@ int64_t cmi_pool_acquire_inner(struct cmb_resourcepool *rpp,
             cmb_logger_info(stdout,
                             "Interrupted by signal %" PRId64 ", returning unchanged",
                             sig);
-            if (initially_held > 0u) {
+            const uint64_t holds_now = cmb_resourcepool_held_by_process(rpp, caller);
+            if ((initially_held > 0u) && (holds_now >= initially_held)) {
                 /* Put back the difference. It had some, there should be a record */
                 const uint64_t surplus = reset_holder(hhp, caller, initially_held);
                 rpp->in_use -= surplus;
@@ -521,8 +522,10 @@ int64_t cmi_pool_acquire_inner(struct cmb_resourcepool *rpp,
                 cmb_resourceguard_signal(&(rpp->guard));
             }
             else {
-                /* Had nothing, put back all. */
-                const uint64_t holds_now = cmb_resourcepool_held_by_process(rpp, caller);
+                /*
+                 * Had nothing, or lost what it had to a preemption while it
+                 * waited (the notice is still on its way), put back all.
+                 */
                 rpp->in_use -= holds_now;
                 cmb_assert_debug(rpp->in_use <= rpp->capacity);
                 record_sample(rpp);
